@@ -65,7 +65,8 @@ impl POp {
 }
 
 #[derive(Clone, Debug)]
-pub struct PairCase { pub kinds: [bool; 2], pub fees: (u128, u128, u128), pub ops: Vec<POp>, pub fab: bool }
+/// `decs`: the pair's asset_decimals (a constant-product pair must not care; the model has no decimals)
+pub struct PairCase { pub kinds: [bool; 2], pub fees: (u128, u128, u128), pub ops: Vec<POp>, pub fab: bool, pub decs: [u8; 2] }
 
 impl PairCase {
     pub fn coq(&self) -> String {
@@ -73,7 +74,7 @@ impl PairCase {
         format!("(({}, {}), ({}, {}, {}), [{}])", coqbool(self.kinds[0]), coqbool(self.kinds[1]), self.fees.0, self.fees.1, self.fees.2, ops.join("; "))
     }
     pub fn json(&self) -> serde_json::Value {
-        json!({"asset_kinds_cw20": self.kinds, "second_asset_factory_denom": self.fab, "fees_protocol_swap_burn": [self.fees.0.to_string(), self.fees.1.to_string(), self.fees.2.to_string()],
+        json!({"asset_kinds_cw20": self.kinds, "asset_decimals": self.decs, "second_asset_factory_denom": self.fab, "fees_protocol_swap_burn": [self.fees.0.to_string(), self.fees.1.to_string(), self.fees.2.to_string()],
                "accounts": ACCTS, "ops": self.ops.iter().map(|o| format!("{:?}", o)).collect::<Vec<_>>(),
                "machine": self.machine()})
     }
@@ -191,7 +192,7 @@ pub struct CaseResult { pub obs: Vec<String>, pub ok_ops: usize, pub kinds_ok: s
 
 /// run one case on the real contracts; `prop` selects which property's monitors are active
 pub fn run_case(out: &mut Out, prop: &str, case: &PairCase) -> Option<CaseResult> {
-    let mut w = deploy_pair_ext(case.kinds, [6, 6], pool_fee(case.fees.0, case.fees.1, case.fees.2), PairType::ConstantProduct, case.fab).ok()?;
+    let mut w = deploy_pair_ext(case.kinds, case.decs, pool_fee(case.fees.0, case.fees.1, case.fees.2), PairType::ConstantProduct, case.fab).ok()?;
     let mut obs: Vec<String> = vec![];
     let mut prev = snap(&w);
     let mut fees = case.fees;
@@ -482,12 +483,13 @@ pub fn gen_case(rng: &mut Rng, len: usize, bias: &Bias) -> PairCase {
         ops.push(op);
     }
     let fab = !kinds[1] && rng.chance(1, 4);
-    PairCase { kinds, fees, ops, fab }
+    let decs = *rng.pick(&[[6u8, 6u8], [6, 6], [6, 8], [18, 6], [8, 6], [6, 18]]);
+    PairCase { kinds, fees, ops, fab, decs }
 }
 
 /// after generation: insert "withdraw exactly what was just minted" ops using a dry run on the real contracts
 pub fn add_deposit_withdraw_pairs(rng: &mut Rng, case: &mut PairCase) {
-    let mut w = match deploy_pair_ext(case.kinds, [6, 6], pool_fee(case.fees.0, case.fees.1, case.fees.2), PairType::ConstantProduct, case.fab) { Ok(w) => w, Err(_) => return };
+    let mut w = match deploy_pair_ext(case.kinds, case.decs, pool_fee(case.fees.0, case.fees.1, case.fees.2), PairType::ConstantProduct, case.fab) { Ok(w) => w, Err(_) => return };
     let mut new_ops = vec![];
     for op in case.ops.clone() {
         let before: Vec<u128> = (1..6).map(|i| w.lp_bal(ACCTS[i])).collect();
@@ -564,7 +566,7 @@ impl PairCase {
             POp::ForeignHookSwap { who, x } => json!(["foreign_hook_swap", who, x.to_string()]),
             POp::TokenViaNativeSwap { who, dir, x } => json!(["token_via_native_swap", who, dir, x.to_string()]),
         }).collect();
-        json!({"kinds": self.kinds, "fab": self.fab, "fees": [self.fees.0.to_string(), self.fees.1.to_string(), self.fees.2.to_string()], "ops": ops})
+        json!({"kinds": self.kinds, "fab": self.fab, "decs": self.decs, "fees": [self.fees.0.to_string(), self.fees.1.to_string(), self.fees.2.to_string()], "ops": ops})
     }
     pub fn from_machine(v: &serde_json::Value) -> Option<PairCase> {
         let kinds = [v["kinds"][0].as_bool()?, v["kinds"][1].as_bool()?];
@@ -590,7 +592,8 @@ impl PairCase {
                 _ => return None,
             });
         }
-        Some(PairCase { kinds, fees, ops, fab: v["fab"].as_bool().unwrap_or(false) })
+        let decs = match v["decs"].as_array() { Some(a) if a.len() == 2 => [a[0].as_u64().unwrap_or(6) as u8, a[1].as_u64().unwrap_or(6) as u8], _ => [6, 6] };
+        Some(PairCase { kinds, fees, ops, fab: v["fab"].as_bool().unwrap_or(false), decs })
     }
 }
 
@@ -602,7 +605,7 @@ pub fn threshold_corpus() -> Vec<PairCase> {
             // pool 1e12/1e12, protocol fee 0.1 %: gross in [t*1000, t*1000+999] gives a protocol fee of exactly t
             let x = t * 1000 + 500 + t; // gross = x - x^2/(1e12+x) ~ x - 1
             let ms = Some(DEC / 2);
-            v.push(PairCase { kinds, fab: !kinds[1] && t == 1001, fees: (DEC / 1000, 3 * DEC / 1000, DEC / 500), ops: vec![
+            v.push(PairCase { kinds, fab: !kinds[1] && t == 1001, decs: [6, 6], fees: (DEC / 1000, 3 * DEC / 1000, DEC / 500), ops: vec![
                 POp::Provide { who: 1, d0: 1_000_000_000_000, d1: 1_000_000_000_000, tol: None, receiver: None },
                 POp::Swap { who: 2, dir, x, belief: None, max_spread: ms, to: None },
                 POp::Collect { who: 3 },
